@@ -119,16 +119,17 @@ CURATED_ENC_UNIONS = [
     "Union[DC1, DC2]", "Union[DC1, DC3]", "Union[DC3, DC1]", "Union[Dict[str, int], List[int]]",
     "Union[Decimal, date]", "Union[Color, Num, None]", "Union[date, datetime]", "Union[datetime, date]",
     "Union[bytes, str]", "Union[float, int, bool, str]", "Union[Tuple[int, str], List[int]]",
+    "Union[Decimal, int]", "Union[UUID, int, None]", "Union[UUID, str]", "Union[Decimal, float, str]",
 ]
 
 LIT_POOL = ["0", "1", "2", "-1", "True", "False", "'a'", "'1'", "''", "None", "Color.RED", "Color.GREEN",
-            "Num.ONE", "Lvl.LO", "Lvl.HI", "b'x'", "'r'"]
+            "Num.ONE", "Lvl.LO", "Lvl.HI", "b'x'", "'r'", "1000", "'x y'"]
 LIT_INPUTS = ["0", "1", "2", "-1", "True", "False", "0.0", "1.0", "2.0", "-1.0", "1.5", "float('nan')", "'a'", "'1'", "''",
-              "None", "'r'", "'g'", "'eA==\\n'", "'eA=='", "'x'", "[]", "[1]", "{}", "'True'", "'None'", "10**20"]
+              "None", "'r'", "'g'", "'eA==\\n'", "'eA=='", "'x'", "[]", "[1]", "{}", "'True'", "'None'", "10**20", "1000", "'x y'", "1000.0"]
 CURATED_LITS = ["Literal[1]", "Literal[1, True]", "Literal[0, False]", "Literal[True, 1]", "Literal['a']",
                 "Literal['a', None]", "Literal[Color.RED, 'r']", "Literal[Lvl.LO, 1]", "Literal[1, Lvl.LO]",
                 "Literal[b'x', 'eA==\\n']", "Literal[None]", "Literal[Num.ONE, 2]", "Literal[0, False, 'a', None]",
-                "Literal[Literal[1, 2], 'a']"]
+                "Literal[Literal[1, 2], 'a']", "Literal[1000, 'x y', 2]"]
 
 _MOD_COUNTER = [0]
 
